@@ -299,3 +299,8 @@ impl<T> core::ops::Deref for CArcSome<T> {
 unsafe impl<T> Opaquable for CArcSome<T> {
     type OpaqueTarget = CArcSome<c_void>;
 }
+
+#[cfg(kani)]
+mod verif_kani {
+    include!(concat!(env!("H33P_CGLUE_VERIF_DIR"), "/arc.rs"));
+}
